@@ -449,7 +449,7 @@ def snapshot(v, memo=None):
         if type(v) is not tuple:  # namedtuple (e.g. SWCNames): immutable configuration, kept as it is
             return v
         c = tuple(snapshot(x, memo) for x in v)
-        if hasattr(v, "_fields"):  # namedtuple (SWCNames, SWCTypes): keep the class, attribute access must survive a copy
+        if hasattr(v, "_fields"):  # namedtuple whose fields are symbolic values: keep the class
             c = type(v)(*c)
     elif isinstance(v, dict):
         c = {k: snapshot(x, memo) for k, x in v.items()}
